@@ -14,6 +14,7 @@ class SpecFork(Exception):
 class ExprMixin:
     # ------------------------------------------------------------------ entry points
     def ev(self, e, st, exits):
+        self.cur_state = st
         m = getattr(self, 'e_' + type(e).__name__, None)
         if m is None:
             raise Unsupported(f'expression {type(e).__name__} at L{getattr(e, "lineno", 0)}')
@@ -162,7 +163,7 @@ class ExprMixin:
     def e_UnaryOp(self, e, st, exits):
         for st2, v in self.ev(e.operand, st, exits):
             if isinstance(e.op, ast.Not):
-                yield st2, V(BOOL, z3.Not(self.truthy(v)))
+                yield st2, V(BOOL, z3.Not(self.truthy(v, st2)))
             elif isinstance(e.op, ast.USub) and v.ty is INT:
                 yield st2, V(INT, -v.t)
             elif isinstance(e.op, ast.UAdd) and v.ty is INT:
@@ -177,8 +178,10 @@ class ExprMixin:
 
     def binop(self, op, a, b, st, exits, e):
         line = getattr(e, 'lineno', 0)
-        if isinstance(a.ty, TOpt) or isinstance(b.ty, TOpt):
-            raise Unsupported('arithmetic on Optional value (needs a narrowing the engine did not see)')
+        if isinstance(a.ty, TOpt):
+            a = self.coerce(a, a.ty.inner, st)       # checked: the path must prove it is not None
+        if isinstance(b.ty, TOpt):
+            b = self.coerce(b, b.ty.inner, st)
         if a.ty is BOOL and b.ty is INT:
             a = V(INT, z3.If(a.t, 1, 0))
         if b.ty is BOOL and a.ty is INT:
@@ -292,13 +295,13 @@ class ExprMixin:
             if len(values) == 1:
                 yield st2, a
                 continue
-            ta = z3.simplify(self.truthy(a))
+            ta = z3.simplify(self.truthy(a, st2))
             go = ta if is_and else z3.Not(ta)         # condition under which the rest is evaluated
             if z3.is_false(go):
                 yield st2, a
                 continue
             cont = st2.copy().assume(go)
-            if not z3.is_true(go) and not self.feasible(cont):
+            if not z3.is_true(go) and not self.spec_mode and not self.feasible(cont):
                 yield st2, a
                 continue
             sub_exits = []
@@ -345,8 +348,8 @@ class ExprMixin:
                 continue
             a = st2.copy().assume(t)
             b = st2.copy().assume(z3.Not(t))
-            ra = list(self.ev(e.body, a, exits)) if self.feasible(a) else []
-            rb = list(self.ev(e.orelse, b, exits)) if self.feasible(b) else []
+            ra = list(self.ev(e.body, a, exits)) if (self.spec_mode or self.feasible(a)) else []
+            rb = list(self.ev(e.orelse, b, exits)) if (self.spec_mode or self.feasible(b)) else []
             if len(ra) == 1 and len(rb) == 1 and _same_heap(ra[0][0], st2) and _same_heap(rb[0][0], st2):
                 va, vb = ra[0][1], rb[0][1]
                 ty = _join_ty(va.ty, vb.ty)
@@ -607,6 +610,9 @@ class ExprMixin:
                 return None
             return V(ty.v, ty.vopt.val(cell))
         if isinstance(ty, TRef):
+            sv = self.seq_view(base, st)
+            if sv is not None:
+                return self.load_subscript(sv, idx, st, exits, e)
             r = self.call_dunder(base, '__getitem__', [idx], st, exits, e)
             if r is not None:
                 return r
@@ -746,8 +752,8 @@ class ExprMixin:
                             return self.const(ast.literal_eval(c.class_attrs[attr]))
                         except Exception:
                             break
-            # method declared only in the sidecar (builtin base classes such as deque)
-            if (ty.cls, attr) in self.builtin_methods:
+            # methods of a builtin sequence base class (deque): modelled on the __items__ view
+            if self.field_ty(ty.cls, '__items__') is not None:
                 return V(BOUND, Bound(r, attr, None, ci))
             raise Unsupported(f'attribute {ty.cls}.{attr}: not a declared field or method')
         if isinstance(ty, TEnum):
@@ -790,7 +796,7 @@ _NOLIT = object()
 PY_BUILTINS = {'len', 'int', 'str', 'any', 'all', 'isinstance', 'range', 'enumerate', 'zip', 'reversed',
                'sorted', 'list', 'tuple', 'set', 'dict', 'getattr', 'hasattr', 'bool', 'max', 'min', 'repr',
                'super', 'map', 'filter', 'next', 'iter', 'print', 'type', 'cast', 'issubclass', 'sum', 'ord', 'chr',
-               'abs', 'id', 'callable', 'frozenset', 'open', 'bytes', 'object'}
+               'abs', 'id', 'callable', 'frozenset', 'open', 'bytes', 'object', 'islice'}
 
 
 def _same_heap(a, b):
